@@ -18,7 +18,8 @@ PROPERTY = 'C03'
 ASSUMPTIONS = [
     'containers are lists and dicts (arbitrarily nested); tuples are not searched by df_index and are outside the statement',
     'indices are sorted, duplicate-free daily DatetimeIndex; `limit` is not used',
-    'multi-column frames with a fill method only carry whole-row NaN patterns (row-wise as-of versus per-value filling is ambiguous in the statement)',
+    'multi-column frames with a fill method carry whole-row NaN patterns (row-wise as-of versus per-value filling is ambiguous in the statement); a partly observed row is only '
+    'used to assert that every cell holding an observation keeps it at every surviving timestamp (what the NaN cell becomes is not judged)',
     'bare numpy arrays are aligned among themselves only (mixing arrays with timeseries is not claimed)',
     'result dtype and column ORDER of frames are not checked',
 ]
@@ -196,7 +197,7 @@ class _Marker:
 
 
 def check_nested(case):
-    from pyg_base import df_sync, presync, df_reindex
+    from pyg_base import df_sync, presync, df_reindex, df_index
     out = Out()
     models = [tm.model_series(d, k) for k, d in enumerate(case['v'])]
     daysets = [set(m) for m in models]
@@ -216,6 +217,9 @@ def check_nested(case):
              lambda r: (type(r) is list and type(r[0]) is dict and list(r[0]) == ['index', 'stock'], [r[0]['index'], r[0]['stock'], r[1]])),
             ("{index:s0,other:[s1,s2]}", {'index': s[0], 'other': [s[1], s[2]]}, [0, 1, 2],
              lambda r: (type(r) is dict and list(r) == ['index', 'other'] and type(r['other']) is list, [r['index'], r['other'][0], r['other'][1]])),
+            # a dict built in NON-sorted key order: first / last (lj / rj) follow the order the members were put in, not the alphabet
+            ('{y:s0,x:[s1,s2]}', {'y': s[0], 'x': [s[1], s[2]]}, [0, 1, 2],
+             lambda r: (type(r) is dict and list(r) == ['y', 'x'] and type(r['x']) is list, [r['y'], r['x'][0], r['x'][1]])),
             ('[[s0],[[s1]],txt,s2]', [[s[0]], [[s[1]]], 'txt', s[2]], [0, 1, 2],
              lambda r: (type(r) is list and type(r[0]) is list and type(r[1]) is list and type(r[1][0]) is list and r[2] == 'txt',
                         [r[0][0], r[1][0][0], r[3]])),
@@ -225,6 +229,16 @@ def check_nested(case):
         for method in METHODS:
             days = tm.common_days(daysets, how)
             for name, obj, order, probe in shapes():
+                if method is None:
+                    # the common index of the container itself (df_index flattens the container on its own)
+                    out.sub()
+                    try:
+                        idx = df_index(obj, how)
+                        out.call()
+                        if [tm.daynum(t) for t in idx] != days:
+                            out.viol('wrong-index', 'df_index(%s of %s, %r) = %s expected days %s' % (name, desc, how, [tm.daynum(t) for t in idx], days), how=how, f='df_index-nested', shape=name)
+                    except Exception as e:
+                        out.viol('raised', 'df_index(%s of %s, %r) raised %s: %s' % (name, desc, how, type(e).__name__, e), how=how, f='df_index-nested', shape=name)
                 out.sub()
                 sig = dict(shape=name, how=how, method=str(method))
                 try:
@@ -238,7 +252,7 @@ def check_nested(case):
                 except Exception as e:
                     out.viol('raised', 'df_sync(%s of %s, %s, %s) raised %s: %s' % (name, desc, how, method, type(e).__name__, e), exc=type(e).__name__, **sig)
             # the method spelt as a LIST (the documented 'str or list of str'), one list object serving the whole call and the next call
-            if method is not None:
+            if method is not None and how in ('ij', 'oj'):
                 mlist = [method]
                 for rep in (1, 2):
                     for name, obj, order, probe in [sh for sh in shapes() if sh[0][0] == '{' or sh[0].startswith('[{')]:
@@ -352,6 +366,34 @@ def check_frames(case):
                 p = tm.frame_problem(res[2], {'z': tm.align({d: float(5000 + d) for d in sorted(daysets[0])}, days, method)}, ['z'], 'the 1-column frame')
                 if p:
                     out.viol('wrong-alignment', p, frame='1col', **sig)
+    # ---- a PARTLY observed row (NaN in column a, a value in column b) with a fill method: whether the NaN is filled per value or per row is not stated,
+    #      but every cell that holds an observation keeps it at every surviving timestamp
+    d0 = sorted(daysets[0])
+    if d0 and case['f'][0][1] == 'none':
+        for hole in sorted(set([d0[0], d0[len(d0) // 2]])):
+            mp = {c: dict(col) for c, col in mfs[0].items()}
+            mp['a'][hole] = None
+            for how in ('ij', 'oj', 'lj'):
+                days = tm.common_days(daysets, how)
+                for method in ('ffill', 'bfill'):
+                    out.sub()
+                    sig = dict(how=how, method=method, columns='False', partial_row=True)
+                    try:
+                        res = df_sync([tm.build_frame(mp), tm.build_frame(mfs[1])], how, method, False)
+                        out.call()
+                        got = res[0]
+                        if [tm.daynum(t) for t in got.index] != days or sorted(got.columns) != ['a', 'b']:
+                            out.viol('wrong-alignment', 'df_sync(frame with a partly observed row at day %d, %s; %s, %s): index %s columns %s, expected days %s' % (
+                                hole, desc, how, method, [tm.daynum(t) for t in got.index], list(got.columns), days), frame=0, **sig)
+                            continue
+                        for c in ('a', 'b'):
+                            for d in days:
+                                if mp[c].get(d) is not None and not tm.cell_ok(got[c][tm.day(d)], mp[c][d]):
+                                    out.viol('wrong-alignment', 'df_sync(frame whose row at day %d is NaN in column a only, %s; %s, %s): the observed cell [%s, day %d] = %r became %r' % (
+                                        hole, desc, how, method, c, d, mp[c][d], got[c][tm.day(d)]), frame=0, **sig)
+                                    break
+                    except Exception as e:
+                        out.viol('raised', 'df_sync(frame with a partly observed row, %s, %s, %s) raised %s: %s' % (desc, how, method, type(e).__name__, e), exc=type(e).__name__, **sig)
     if daysets[0] != daysets[1]:
         out.nontrivial()
     out.cls('frames-%s' % ('same' if daysets[0] == daysets[1] else 'diff'))
